@@ -58,7 +58,13 @@ RULE = ("cells = test problem x constructor options (sub-products listed in BOUN
         "the noise level {2^-20, documented default, 2^20} with the problem size {small, Deconvolution1D ``dim`` left at "
         "its documented default 128 / Deconvolution2D 144 observations} and both noise types: forward on the complete "
         "basis, noise map, likelihood.logd and posterior.logd on the lattice against the dense reference (log-determinant "
-        "by LU, never a product of variances)")
+        "by LU, never a product of variances); *PSF-magnitude* cells cross a user-supplied signed, non-point-symmetric ndarray "
+        "PSF with an exact power-of-two factor s in {2^-40, 2^-30, 1, 2^30} (noise_std = 0.05 s) under a scale-homogeneous "
+        "oracle: forward and adjoint on the complete basis, exactData, data (one generic normal vector) and "
+        "posterior.gradient on 3 points must equal s x the dense references built from the UNSCALED PSF (adjoint "
+        "reference: transpose of the assembled matrix for Deconvolution1D, the documented rotated-PSF convolution for "
+        "Deconvolution2D; gradient = adjoint-reference (data - A x)/noise_std^2 + gradient of the Gaussian log-prior) and, "
+        "differentially, s x the same quantities of the unscaled sibling problem to 1e-13")
 BOUND = {
     "quick": "Deconvolution1D: dim {7,8} x PSF {gauss,moffat,defocus,custom asymmetric} x PSF_size {3,4,dim} x 5 BCs x "
              "noise {gaussian,scaledgaussian} x noise_std {0.01,0.1} (phantom sinc, default prior); + 10 phantoms x dim "
@@ -97,7 +103,10 @@ BOUND = {
              "default}; WangCubic noise_std {1,.5} x data {default, 2.5}].  Magnitude facet (light): Deconvolution1D [dim 8 x noise_std {2^-20, 2^20}; dim left at its "
              "default 128 x noise_std {2^-20, 0.01, 2^20}] x noise {gaussian, scaledgaussian} x (PSF, PSF_size, BC) in "
              "{(gauss,5,periodic), (custom,4,zero)} (phantom gauss); Deconvolution2D [dim 5 x noise_std {2^-20, 2^20}; dim "
-             "12 x noise_std {2^-20, 0.0036, 2^20}] x 2 noise types x {(gauss,3,periodic), (custom 4x4,neumann)}.",
+             "12 x noise_std {2^-20, 0.0036, 2^20}] x 2 noise types x {(gauss,3,periodic), (custom 4x4,neumann)}.  PSF-magnitude "
+             "facet: custom signed non-symmetric ndarray PSF x s {2^-40, 2^-30, 1, 2^30} x all 5 BCs x [Deconvolution1D "
+             "(dim, PSF length) {(8,4), (7,3)}; Deconvolution2D (dim, PSF side) {(4,3), (4,4)}], Gaussian noise 0.05 s, "
+             "non-zero-mean Gaussian prior.",
     "thorough": "Deconvolution1D full product dim {7,8,16} x 4 PSFs x PSF_size {3,4,5,dim} x 5 BCs x 10 phantoms x 2 "
                 "noise types x 2 noise_std, + 4 priors x 2 noise types x 2 std x 3 dims x 5 BCs x {gauss,custom}; legacy "
                 "dims {8,16}; light option classes as quick with dims {7,8,16}, PSF_size {default, dim+1, dim+2, dim+3, "
@@ -108,7 +117,8 @@ BOUND = {
                 "families x 4 name kinds x [Deconvolution1D dims {7,8,16} x 2 noise types x PSF {gauss, custom} (size 4) x "
                 "5 BCs; legacy dims {8,16} x PSF {gauss, custom} x 2 noise types; Deconvolution2D dims {4,5} x PSF {gauss, "
                 "custom} (size 3) x 5 BCs x 2 noise types x 2 prior geometries; WangCubic as quick]; magnitude facet: "
-                "as quick with 4 PSFs x 5 BCs (Deconvolution1D, PSF_size {5,4}) / {gauss, custom} x 5 BCs (Deconvolution2D)",
+                "as quick with 4 PSFs x 5 BCs (Deconvolution1D, PSF_size {5,4}) / {gauss, custom} x 5 BCs (Deconvolution2D); "
+                "PSF-magnitude facet as quick plus Deconvolution1D {(16,5), (8,8)}, Deconvolution2D {(5,5), (6,4), (5,6)}",
 }
 ASSUMPTIONS = [
     "documented PSFs are read as: Gaussian exp(-x^2/(2 s^2)), Moffat (1+x^2/s^2)^-1, out-of-focus = indicator of the disc "
@@ -164,6 +174,16 @@ ASSUMPTIONS = [
     "the variances would not; data - exactData is compared with the stated noise up to the rounding of forming the "
     "difference (8 eps (|exactData| + |noise|)); the default size of Deconvolution2D (128 x 128) is not covered - 12 x "
     "12 stands for 'more observations than the product of their variances can carry'",
+    "PSF-magnitude facet: a custom PSF is documented as 'ndarray' without normalisation or range, so P x 2^-40 ... 2^30 are "
+    "legal PSFs and the documented operator (convolution with the stated PSF) is homogeneous of degree one in it; the "
+    "factors are exact powers of two so that scaling commutes with every rounding of the FFT / matrix route (differential "
+    "tolerance 1e-13, reference tolerance 1e-9).  Adjoint of Deconvolution2D: the documented mechanism is the same padded "
+    "convolution with the PSF rotated by 180 degrees; this is the exact transpose of the forward matrix only for odd PSF "
+    "sides under zero / periodic boundaries - for even sides or reflective boundaries the rotated-PSF operator is taken "
+    "as the documented adjoint (the outcome 'adjoint-reference:rotated-PSF(not the transpose)' records those cells; "
+    "<Ax,b> == <x,A*b> is NOT demanded there), and posterior.gradient is demanded to be that adjoint applied to the "
+    "residual.  Not covered: scales at which s x P or noise_std^2 leave the normal double range, non-Gaussian priors, "
+    "scaledgaussian noise in these cells",
     "history cells run the operation with numpy's global generator as re-seeded by the runner (the values drawn are not "
     "judged, only the problem's components before / after); an operation that raises counts as refused but must leave "
     "the components unchanged as well; histories of length one only (plus the after-MAP probe of the full "
@@ -455,6 +475,14 @@ def cells(tier, seed):
                 for data in (None, 2.5):
                     out.append({"fam": "uprior", "prob": "wang", "pfam": pfam, "name": nk, "std": std, "data": data,
                                 "cat": k})
+    # --- (i) magnitude of a user-supplied PSF: custom signed non-symmetric ndarray PSF x exact power of two x BC
+    for tag, _ in PSF_SCALES:
+        for bc in tp.BC_1D:
+            for dim, size in (((8, 4), (7, 3)) if not T else ((8, 4), (7, 3), (16, 5), (8, 8))):
+                out.append({"fam": "psfmag", "prob": "d1", "dim": dim, "size": size, "BC": bc, "scale": tag, "cat": k})
+        for bc in tp.BC_2D:
+            for dim, size in (((4, 3), (4, 4)) if not T else ((4, 3), (4, 4), (5, 5), (6, 4), (5, 6))):
+                out.append({"fam": "psfmag", "prob": "d2", "dim": dim, "size": size, "BC": bc, "scale": tag, "cat": k})
     return out
 
 
@@ -1873,6 +1901,111 @@ def eval_uprior(res, cell):
     res.sample = {"family": pfam, "name": expected, "posterior_logd_minus_reference_max_abs": worst, "points": len(pts)}
 
 
+# ----------------------------------------------------------------------------------------
+# (i) magnitude of a user-supplied PSF: scale-homogeneous oracle
+# ----------------------------------------------------------------------------------------
+PSF_SCALES = [("2^-40", 2.0 ** -40), ("2^-30", 2.0 ** -30), ("1", 1.0), ("2^30", 2.0 ** 30)]
+
+
+def eval_psfmag(res, cell):
+    """Custom signed non-symmetric ndarray PSF x exact power of two s (noise_std = 0.05 s): forward, adjoint, exactData,
+    data and posterior.gradient of the scaled problem against (a) s x dense references built from the UNSCALED PSF and
+    (b) the unscaled sibling problem (homogeneity of degree one in the PSF)."""
+    import cuqi
+    k, dim, size, bc, two_d = cell["cat"], cell["dim"], cell["size"], cell["BC"], cell["prob"] == "d2"
+    comp = "Deconvolution2D" if two_d else "Deconvolution1D"
+    s = dict(PSF_SCALES)[cell["scale"]]
+    n = dim * dim if two_d else dim
+    Pc = tp.custom_psf_2d(size, k) if two_d else tp.custom_psf_1d(size, k)
+    sfx = "PSF-scale=%s,PSF_size=%s" % (cell["scale"], _parity(size))
+    xs = refs.dyadic_vec(n, k + 1)
+    z = refs.dyadic_vec(n, k + 3, scale=0.5)
+    mean, var = refs.dyadic_vec(n, k, scale=0.125), 0.5 + 0.125 * np.arange(n)
+
+    def build(sc):
+        if two_d:
+            geom = cuqi.geometry.Image2D((dim, dim))
+            return cuqi.testproblem.Deconvolution2D(dim=dim, PSF=Pc * sc, BC=bc, noise_type="gaussian", noise_std=0.05 * sc,
+                                                    phantom=xs.reshape(dim, dim),
+                                                    prior=_make_prior("gaussian-u", n, k, geometry=geom))
+        return cuqi.testproblem.Deconvolution1D(dim=dim, PSF=Pc * sc, BC=bc, noise_type="gaussian", noise_std=0.05 * sc,
+                                                phantom=xs, prior=_make_prior("gaussian-u", n, k))
+
+    def observe(sc):
+        prob, st = _scripted(lambda: build(sc), z)
+        o = {"F": _columns(prob.model.forward, n), "G": _columns(prob.model.adjoint, n),
+             "ex": _arr(prob.exactData).ravel(), "y": _arr(prob.data).ravel()}
+        res.transitions += 2 * n
+        try:
+            o["g"] = [_arr(prob.posterior.gradient(x)).ravel() for x in pts]
+            res.transitions += len(pts)
+        except HarnessError:
+            raise
+        except Exception as e:
+            o["g"] = None
+            res.outcomes.add("gradient:refused:" + type(e).__name__)
+        return o
+    pts = [np.zeros(n), refs.dyadic_vec(n, k + 2), np.eye(n)[n // 2]]
+    if not is_asym(Pc):
+        raise HarnessError("catalogue PSF is point-symmetric")
+    try:
+        o = observe(s)
+        o1 = observe(1.0) if s != 1.0 else None
+    except HarnessError:
+        raise
+    except Exception as e:
+        res.fail("C17|%s|construct-or-apply|raises,%s" % (comp, sfx), "custom PSF scaled by %s: %r" % (cell["scale"], e))
+        return
+    res.state("built")
+    R = (tp.conv2d_matrix if two_d else tp.conv1d_matrix)(Pc, dim, bc)
+    # documented adjoint: 1-D = transpose of the assembled matrix; 2-D = the same padded convolution with the PSF
+    # rotated by 180 degrees (see ASSUMPTIONS: the exact transpose only for odd PSF sizes under zero / periodic BC)
+    Radj = tp.conv2d_matrix(np.ascontiguousarray(Pc[::-1, ::-1]), dim, bc) if two_d else R.T
+    res.outcomes.add("adjoint-reference:" + ("transpose" if close(Radj, R.T, 1e-13) else "rotated-PSF(not the transpose)"))
+    y0 = R @ xs + 0.05 * z
+    gref = [Radj @ (y0 - R @ x) / 0.05 ** 2 - (x - mean) / var for x in pts]
+    facet = "BC=%s,%s" % (bc, sfx)
+
+    def judge(what, got, ref, tol, why):
+        res.evaluations += 1
+        if got.shape != ref.shape or not np.all(np.isfinite(got)) or not close(got, ref, tol):
+            err = float(np.max(np.abs(got - ref))) if got.shape == ref.shape else float("nan")
+            res.fail("C17|%s|%s|%s" % (comp, what, sfx), "%s (max abs deviation after dividing by the scale %.3g; %s)"
+                     % (why, err, facet), facet=facet)
+            return False
+        return True
+    ok = judge("forward", o["F"] / s, R, 1e-9, "forward matrix of the problem with PSF s*P is not s x the documented convolution with P")
+    ok &= judge("adjoint", o["G"] / s, Radj, 1e-9, "adjoint matrix of the problem with PSF s*P is not s x the documented adjoint "
+                "(transpose / rotated-PSF convolution) of the convolution with P")
+    judge("exactData", o["ex"] / s, R @ xs, 1e-9, "exactData is not s x (A exactSolution)")
+    judge("data", o["y"] / s, y0, 1e-9, "data is not exactData + noise_std * z")
+    if o["g"] is not None:
+        for i, (g, gr) in enumerate(zip(o["g"], gref)):
+            # noise_std scales with the PSF: the posterior gradient is scale free
+            if not judge("gradient", g, gr, 1e-9 * max(1.0, float(np.max(np.abs(gr)))),
+                         "posterior.gradient at lattice point %d differs from adjoint(data - A x)/noise_std^2 + grad log-prior "
+                         "built from the reference matrices" % i):
+                break
+    res.state("references")
+    if o1 is not None:
+        # differential: homogeneity of degree one in the PSF (power-of-two scale: no rounding involved)
+        for key, what in (("F", "forward"), ("G", "adjoint"), ("ex", "exactData"), ("y", "data")):
+            judge(what + "-homogeneity", o[key] / s, o1[key], 1e-13, "%s of the problem with PSF s*P (noise_std 0.05 s) is not s x that "
+                  "of the problem with PSF P (noise_std 0.05)" % what)
+        if o["g"] is not None and o1["g"] is not None:
+            for g, g1 in zip(o["g"], o1["g"]):
+                if not judge("gradient-homogeneity", g, g1, 1e-11 * max(1.0, float(np.max(np.abs(g1)))),
+                             "posterior.gradient changes when PSF and noise_std are scaled together"):
+                    break
+        res.state("homogeneous")
+    res.outcomes.add("psf-scale:ok" if not res.failures else "psf-scale:violated")
+
+
+def is_asym(P):
+    Q = P[::-1] if P.ndim == 1 else P[::-1, ::-1]
+    return float(np.max(np.abs(P - Q))) > 0.01 * float(np.max(np.abs(P)))
+
+
 def eval_cell(cell):
     res = CellResult(cell)
     fam = cell["fam"]
@@ -1893,6 +2026,8 @@ def eval_cell(cell):
         eval_use(res, cell)
     elif fam == "uprior":
         eval_uprior(res, cell)
+    elif fam == "psfmag":
+        eval_psfmag(res, cell)
     else:
         raise ValueError(fam)
     return res
